@@ -766,11 +766,17 @@ fn minimise_and_write(scn: &dyn DynScenario, opts: &BatchOpts, f: FoundViolation
     let budget_s = 120.0;
     let code_seed = f.sched.code_seed;
 
+    // a shrunk candidate must stay the same kind of violation: same class, and listed / not
+    // listed in the known-findings file exactly as the original was (otherwise shrinking can
+    // drift from a new violation to a known one of the same class, or the other way round)
+    let known = load_known();
+    let was_known = matches_known(&known, scn.property(), scn.name(), &f.violation).is_some();
+    let same_kind = |v: &Option<Violation>| -> bool { same_class(v, &class) && v.as_ref().map(|v| matches_known(&known, scn.property(), scn.name(), v).is_some() == was_known).unwrap_or(false) };
     let attempt = |plan: &Value, pre: &[Preempt], faults: &[FaultDecision]| -> Option<(Violation, Vec<Preempt>, Vec<FaultDecision>)> {
         let sched = SchedSpec { code_seed, seed: 0, strategy: Strategy::Default, replay: Some(pre.to_vec()), faults: FaultMode::Scripted(faults.to_vec()), trace: false };
         let rep = scn.execute_json(plan, &sched);
         flush_epoch();
-        if same_class(&rep.violation, &class) {
+        if same_kind(&rep.violation) {
             let p = rep.sim.as_ref().map(|s| s.preemptions.clone()).unwrap_or_default();
             Some((rep.violation.unwrap(), p, rep.faults))
         } else {
@@ -821,7 +827,7 @@ fn minimise_and_write(scn: &dyn DynScenario, opts: &BatchOpts, f: FoundViolation
                     let sched = SchedSpec { code_seed, seed: dsim::rng::splitmix(s ^ f.sched.seed), strategy: Strategy::Random, replay: None, faults: FaultMode::Scripted(faults.clone()), trace: false };
                     let rep = scn.execute_json(&cand, &sched);
                     flush_epoch();
-                    if same_class(&rep.violation, &class) {
+                    if same_kind(&rep.violation) {
                         plan = cand.clone();
                         viol = rep.violation.clone().unwrap();
                         pre = rep.sim.as_ref().map(|s| s.preemptions.clone()).unwrap_or_default();
@@ -1263,6 +1269,9 @@ pub fn crash_child(scn: &'static dyn DynScenario, seed: u64, tier: Tier, offset:
         let sched = sched_for(scn, seed, run);
         let rep = scn.execute_json(&plan, &sched);
         flush_epoch();
+        if std::env::var("VERIF_DEBUG_SEQ").is_ok() {
+            eprintln!("run {} plan {} obs {}", run, plan, rep.observations.chars().take(4000).collect::<String>());
+        }
         if rep.violation.is_some() {
             eprintln!("run {}: {:?}", run, rep.violation.map(|v| v.class));
         }
